@@ -129,6 +129,7 @@ type Op struct {
 	InterKind int    `json:"inter_kind,omitempty"` // env op kind (kubelet / refresh / edit …), same encoding as K
 	InterA    int    `json:"inter_a,omitempty"`
 	InterB    int    `json:"inter_b,omitempty"`
+	Worker    bool   `json:"worker,omitempty"` // run through one real worker step (queue bookkeeping observed)
 }
 
 func (o Op) String() string {
@@ -692,7 +693,12 @@ func (s *Sys) Reconcile(op *Op) *sim.Record {
 		}
 		return nil
 	}
-	r := c.Reconcile(s.Key)
+	var r *sim.Record
+	if op.Worker {
+		r = c.ReconcileWorker(s.Key)
+	} else {
+		r = c.Reconcile(s.Key)
+	}
 	c.Intercept = nil
 	s.Reconciles++
 	s.Trace = append(s.Trace, func() string { return strings.TrimRight(r.Transcript(), "\n") })
